@@ -20,15 +20,29 @@ PROPS = {
     'C13': {
         'units': ['width'],
         'kani': [],
-        'not_decided': [],
+        'not_decided': ['per-layer width bound inside compile (needs the mdd units)'],
         'assumptions': [],
+        'technique': 'Verus contracts on the real width-heuristic methods (extracted per run)',
+        'level_text': 'Deductive proof (Verus) on the extracted real text of FixedWidth/NbUnassignedWidth/Times/DivBy::max_width: result equals a spec function, and a lemma over that spec function shows the combinators never yield 0; all inputs, no bound.',
+        'level_note': 'Arithmetic failure (overflow of the product, division by zero, underflow) is a stated precondition (width_pre), not hidden; inner heuristic is an arbitrary implementation of the trait contract.',
     },
     'C17': {
         'units': [],
         'kani': ['c17_gap_not_nan_not_negative', 'c17_gap_one_when_infinite', 'c17_gap_zero_iff_equal',
                  'c17_gap_le_one_same_sign', 'c17_gap_cover'],
         'not_decided': [],
+        'technique': 'Kani/CBMC complete proof of the loop-free default method Solver::gap over all (lb, ub), counterexamples replayed natively',
+        'level_text': 'Complete bit-precise proof: Solver::gap (real default method, through a stub Solver) is loop-free, so CBMC over 128 fully symbolic input bits decides every clause of the statement for all pairs lb <= ub.',
+        'level_note': 'Trusted: Kani 0.68/CBMC 6.11 float model; property quantifies over lb <= ub only.',
         'assumptions': ['CBMC models IEEE-754 binary32 conversion and division bit-precisely (round-to-nearest-even)',
                         'inputs range over all (lb, ub) with lb <= ub, as in the property statement'],
     },
 }
+
+
+NOT_APPLICABLE = {
+    'C16': 'twelve whole example programs (parsers, clap, f64 bounds, per-problem admissibility theories): outside the reach of function contracts here; see DESIGN.md section 5',
+    'C20': 'property about the syntax of a format!/Debug-built string: Verus has no str reasoning and Kani stubs format!; see DESIGN.md section 5',
+}
+for _p in ['C01','C02','C03','C04','C05','C06','C07','C08','C09','C10','C11','C12','C14','C15','C18','C19']:
+    NOT_APPLICABLE.setdefault(_p, 'not built yet (deciding unit under construction; see DESIGN.md section 10)')
